@@ -106,3 +106,43 @@ func optionalEmpty(k string, i int) bool {
 	}
 	return false
 }
+
+// Empty strings. The library's text machinery is only well defined
+// for non-empty messages (observed: with an empty innermost message
+// `%s` of a wrapper drops the trailing ": " that Error() keeps, and
+// the prefix inference for foreign wrappers cannot tell an empty
+// prefix from none; the property list restricts C01, C09 and C10 to
+// non-empty strings for that reason). Empty strings are therefore
+// generated only where no other text depends on them: as hint or
+// detail, and as the own message of an *outermost* wrapper that
+// replaces the whole message.
+var emptyAnywhere = []string{"hint", "detail"}
+var emptyAtRoot = []string{"uwrapoverride", "uopt", "rwrapfull"}
+
+// SprinkleEmpty sets some of those strings to "".
+func SprinkleEmpty(t *rapid.T, s *Spec) {
+	for i, n := range s.Nodes() {
+		if (in(n.K, emptyAnywhere) || (i == 0 && in(n.K, emptyAtRoot))) && len(n.S) > 0 && rapid.IntRange(0, 3).Draw(t, "empty") == 0 {
+			n.S[0] = ""
+		}
+	}
+}
+
+// SpecRegularOrEmpty: every generated string is regular, or empty at
+// a position where EmptyOK allows it.
+func SpecRegularOrEmpty(s *Spec) bool {
+	for _, n := range s.Nodes() {
+		if n.K == "sentinel" {
+			continue
+		}
+		for i, x := range n.S {
+			if x == "" && (optionalEmpty(n.K, i) || (i == 0 && in(n.K, emptyAnywhere)) || (i == 0 && n == s && in(n.K, emptyAtRoot))) {
+				continue
+			}
+			if !IsRegular(x) {
+				return false
+			}
+		}
+	}
+	return true
+}
